@@ -585,7 +585,7 @@ func (g *Gen) instrConvert(f *Frame, i *ssa.Convert) {
 		g.declare(s, "String")
 		if b, ok := types.Unalias(el).Underlying().(*types.Basic); ok && b.Kind() == types.Uint8 {
 			g.assume(f.en, fmt.Sprintf("(= (str.len %s) (s_len %s))", s, x.S))
-			g.emit("(assert (=> %[5]s (forall ((k Int)) (! (=> (and (<= 0 k) (< k (s_len %[2]s))) (= (str.to_code (str.at %[1]s k)) (select (select %[3]s (s_ref %[2]s)) (+ (s_off %[2]s) k)))) :pattern ((str.at %[1]s k))))))%[4]s", s, x.S, g.get(f.st, comp), "", f.en)
+			g.emit("(assert (=> %[5]s (forall ((k Int)) (! (=> (and (<= 0 k) (< k (s_len %[2]s))) (= (str.to_code (str.at %[1]s k)) (select (select %[3]s (s_ref %[2]s)) (eidx (s_off %[2]s) k)))) :pattern ((str.at %[1]s k))))))%[4]s", s, x.S, g.get(f.st, comp), "", f.en)
 		}
 		g.setVal(f, i, s)
 	default:
@@ -635,6 +635,15 @@ func (g *Gen) instrLookup(f *Frame, i *ssa.Lookup) {
 		val, has, _, _, _ := g.mapComps(xt)
 		h := fmt.Sprintf("(and (not (= %s 0)) (select (select %s %s) %s))", x.S, g.get(f.st, has), x.S, k.S)
 		v := fmt.Sprintf("(ite %s (select (select %s %s) %s) %s)", h, g.get(f.st, val), x.S, k.S, g.d.zero(xt.Elem()))
+		if ld, ok := i.X.(*ssa.UnOp); ok {
+			if gl, ok := ld.X.(*ssa.Global); ok {
+				if hf, vf, ok := g.tableFuncs(gl); ok {
+					// immutable table: the lookup is a function of the key
+					h = fmt.Sprintf("(%s %s)", hf, k.S)
+					v = fmt.Sprintf("(%s %s)", vf, k.S)
+				}
+			}
+		}
 		if i.CommaOk {
 			okn := g.defFresh(f.name(i)+".ok", "Bool", h)
 			vs := g.d.sortOf(xt.Elem())
